@@ -102,6 +102,9 @@ def exec_CV(t):
     except Exception as e:
         return [exc_token(e)]
     unchanged = (fmt_of(src), codes_of(src), src.shape) == before
+    if (y.config.rounding, y.config.overflow) != (r, o):
+        # the converted object lives under the destination's modes (the next conversion of a chain is governed by them)
+        return ['CONFIG:%s,%s' % (y.config.rounding, y.config.overflow)]
     cs = codes_of(y)
     st = y.status
     return fmt_of(y).split() + [tok_list([str(c) for c in cs]) if cs is not None else 'nonint',
@@ -164,8 +167,9 @@ def generate(tier, rng):
         k = 1 if sh == 0 else rng.choice([2, 4])
         codes = [rng.choice([lo, hi, 0, 1, lo + 1, hi - 1, rng.randint(lo, hi), rng.randint(lo, hi)]) for _ in range(k)]
         codes = [max(lo, min(hi, c)) for c in codes]
-        # keep every intermediate an exact double / int64 (core domain)
-        if any(abs(c) >= 2 ** 52 or abs(c) << max(d[2] - x[2], 0) >= 2 ** 62 for c in codes):
+        # every source code is an exact double (n_word <= 52); the shifted code may need more than 64 bits (both formats are
+        # core-domain formats, which is all the quantifier asks)
+        if any(abs(c) >= 2 ** 52 for c in codes):
             continue
         yield 'CV %s %s %s %s %s %s %s %s' % (rng.choice(ROUTES), rng.choice(['raw', 'value']), shape_tok(sh, k), fm(x), fm(d),
                                               rng.choice(ROUNDS), rng.choice(OVFS), L(codes))
